@@ -664,6 +664,9 @@ func (m Model) ApplyStep(par *LoggerModel, stp Step, ndest *int) *LoggerModel {
 		}
 	case "sample":
 		l.Sampler = &samplerModel{kind: stp.Sampler, n: stp.N}
+		if stp.Sampler == "nil" {
+			l.Sampler = nil
+		}
 	case "output":
 		if stp.N == 1 || stp.N == 2 {
 			l.Dest = -1 // io.Discard / nil: events are processed (hooks, sampler) and written nowhere
